@@ -411,6 +411,32 @@ impl Engine for HandlerEngine {
             let fam6 = rng.chance(1, 3);
             ops.push(format!("sadd {} {} @{t}", rng.pick(&ihs), gen_addr(rng, fam6, 600)));
         }
+        if idx % 7 == 3 {
+            // the store at its capacity of 500 pairs (coverage: handler.rs "announce storage is full"): new
+            // pairs around the boundary are acknowledged / refused with 202, a pair that is already stored
+            // is renewed also when the store is full
+            let fill = 496 + rng.below(4) as usize;
+            for i in 0..fill {
+                ops.push(format!("sadd {} v4:{}:3000 @{t}", ihs[i % ihs.len()], hex(&[10, 99, (i >> 8) as u8, i as u8])));
+            }
+            let s1 = "v4:0a0a0a0a:5000";
+            ops.push(format!("in x01 {s1} q get_peers id={} info_hash={} want=none @{t}", hex(&rng.bytes(20)), ihs[0]));
+            for port in 6000..6007 {
+                for k in 0..2 {
+                    ops.push(format!("in x02 {s1} q announce_peer id={} info_hash={} port={port} token=T0a0a0a0a.{k} @{t}", hex(&rng.bytes(20)), ihs[0]));
+                }
+            }
+            // renewal of stored pairs at capacity: one added by announce, one of the initial fill
+            for k in 0..2 {
+                ops.push(format!("in x03 {s1} q announce_peer id={} info_hash={} port=6000 token=T0a0a0a0a.{k} @{t}", hex(&rng.bytes(20)), ihs[0]));
+            }
+            let s2 = "v4:0a630000:1234";
+            ops.push(format!("in x04 {s2} q get_peers id={} info_hash={} want=none @{t}", hex(&rng.bytes(20)), ihs[0]));
+            for k in 0..2 {
+                ops.push(format!("in x05 {s2} q announce_peer id={} info_hash={} port=3000 token=T0a630000.{k} @{t}", hex(&rng.bytes(20)), ihs[0]));
+            }
+            ops.push(format!("in x06 {s1} q get_peers id={} info_hash={} want=none @{t}", hex(&rng.bytes(20)), ihs[0]));
+        }
         let n = if thorough { 150 } else { 50 };
         let mut issued_tokens: Vec<(String, String)> = vec![]; // (src addr, T-form)
         for _ in 0..n {
